@@ -265,6 +265,7 @@ OPEN = [
      {"mode": "diffone", "std": "f2003", "ops": [["parse", "invalid", 5], ["parse", "invalid", 1], ["parse", "invalid", 0]]}),
     ("C11", "parenthesised-complex-literal-followed-by-blank", "'((1.0, 2.0) )' - a parenthesised complex literal followed by a blank inside further parentheses - is rejected (BracketBase.match strips only on the left; test_bracket_base asserts it)",
      {"mode": "raw", "std": "f2003", "key": "parenthesised-complex-literal-followed-by-blank", "text": wrap("  x = (((.5, 1.0) ))"), "comments": []}),
+    ("C15", "parenthesised-complex-literal-followed-by-blank", "same mechanism, reached through a conditional continuation line ('!$ & ))')", None),
     ("C04", "parenthesised-complex-literal-followed-by-blank", "same mechanism, reached through a continuation placed before the closing parenthesis",
      dict(c04(wrap("  x = (((.5, 1.0) &\n  ))"), wrap("  x = (((.5, 1.0)))")), key="parenthesised-complex-literal-followed-by-blank")),
     ("C14", "include-angle-brackets-printed-as-quotes", "#include <f> is regenerated as #include \"f\"",
